@@ -21,7 +21,7 @@ EXPLANATION = ('C13: finite_diff and the four difference operators are executed 
                'entry must equal the ghost-cell reference stencil for all array contents and pad constants; '
                'adjoint identities <Ax,y>=<x,A*y> are decided as polynomial identities in x and y.')
 BOUNDS = {
-    'quick': {'methods': 3, 'pad_modes': 10, 'axis_lengths_1d': '2..5', 'ndim': '1-2', 'shapes_2d': '(2,3),(3,4)',
+    'quick': {'methods': 3, 'pad_modes': 10, 'axis_lengths_1d': '2..5', 'ndim': '1-3', 'shapes_2d': '(2,3),(3,4)', 'shapes_3d': '(2,3,4) raw arrays; (2,3,3)/(3,3,3)/(2,3,2) operators',
               'cell_sides': '1/2, 1, 2', 'dtypes': 'float64, complex128'},
     'thorough': {'methods': 3, 'pad_modes': 10, 'axis_lengths_1d': '2..7', 'ndim': '1-3',
                  'shapes_2d': 'all (a,b) in 2..4', 'shapes_3d': '(2,3,2),(3,3,3)', 'cell_sides': '1/2, 1, 2',
@@ -167,20 +167,26 @@ def configs(tier, seed):
                                      dtype='float64')))
             out.append(('fd/%s/%s/complex/n=4' % (method, pad),
                         dict(kind='fd', method=method, pad=pad, shape=[4], axis=0, dx=2.0, dtype='complex128')))
-            if tier == 'thorough':
-                for shp in [(2, 3, 2), (3, 3, 3)]:
+            for shp in ([(2, 3, 4)] if tier == 'quick' else [(2, 3, 4), (2, 3, 2), (3, 3, 3)]):
+                if True:
                     for axis in range(3):
                         if shp[axis] < MIN_LEN.get(pad, 2):
                             continue
                         out.append(('fd/%s/%s/shape=%s/axis=%d' % (method, pad, 'x'.join(map(str, shp)), axis),
                                     dict(kind='fd', method=method, pad=pad, shape=list(shp), axis=axis, dx=2.0,
                                          dtype='float64')))
+            if tier == 'thorough':
                 out.append(('fd/%s/%s/float32/n=5' % (method, pad),
                             dict(kind='fd', method=method, pad=pad, shape=[5], axis=0, dx=1.0, dtype='float32')))
             # operators on discretized spaces
-            for shp in ([(3,), (4,), (3, 4)] if tier == 'quick' else [(2,), (3,), (4,), (5,), (3, 4), (4, 3), (3, 3, 3)]):
-                if min(shp) < MIN_LEN.get(pad, 2):
+            for shp in ([(3,), (4,), (3, 4), (2, 3, 3)] if tier == 'quick' else
+                        [(2,), (3,), (4,), (5,), (3, 4), (4, 3), (2, 3, 3), (3, 3, 3)]):
+                if min(shp) < MIN_LEN.get(pad, 2) and len(shp) < 3:
                     continue
+                if len(shp) == 3 and min(shp) < MIN_LEN.get(pad, 2):
+                    shp = (3, 3, 3)
+                    if tier == 'quick' and method != 'forward':
+                        continue
                 sid = 'x'.join(map(str, shp))
                 out.append(('pd/%s/%s/shape=%s' % (method, pad, sid),
                             dict(kind='pd', method=method, pad=pad, shape=list(shp))))
@@ -189,7 +195,8 @@ def configs(tier, seed):
                 out.append(('div/%s/%s/shape=%s' % (method, pad, sid),
                             dict(kind='div', method=method, pad=pad, shape=list(shp))))
     for pad in ('constant', 'symmetric', 'symmetric_adjoint', 'periodic', 'order0', 'order0_adjoint'):
-        for shp in ([(3,), (2, 3)] if tier == 'quick' else [(2,), (3,), (4,), (5,), (2, 3), (3, 3), (3, 4)]):
+        for shp in ([(3,), (2, 3), (2, 3, 2)] if tier == 'quick' else
+                    [(2,), (3,), (4,), (5,), (2, 3), (3, 3), (3, 4), (2, 3, 2)]):
             out.append(('lap/%s/shape=%s' % (pad, 'x'.join(map(str, shp))),
                         dict(kind='lap', method='forward', pad=pad, shape=list(shp))))
     return out
@@ -306,6 +313,10 @@ def case(ctx, kind, method, pad, shape, axis=0, dx=1.0, dtype='float64'):
         lin = odl.Divergence(range=space, method=method, pad_mode=pad)
         yy = ctx.element(space, 'y')
         ctx.eq('adjoint-identity', lin(x).inner(yy), x.inner(lin.adjoint(yy)))
+        d = ctx.element(op.domain, 'd')
+        dpres = [ctx.snapshot(p).reshape(shape) for p in d.parts]
+        stencil('derivative', op.derivative(x)(d),
+                lambda v: sum(apply_ref(dpres[ax], ax, sides[ax], method, pad, 0, v) for ax in range(ndim)))
         return
     if kind == 'lap':
         c = ctx.real('c') if pad == 'constant' else 0
@@ -327,5 +338,15 @@ def case(ctx, kind, method, pad, shape, axis=0, dx=1.0, dtype='float64'):
         lin = odl.Laplacian(space, pad_mode=pad)
         yy = ctx.element(space, 'y')
         ctx.eq('adjoint-identity', lin(x).inner(yy), x.inner(lin.adjoint(yy)))
+        d = ctx.element(space, 'd')
+        dpre = ctx.snapshot(d).reshape(shape)
+
+        def mkd(v):
+            ref = 0
+            for ax in range(ndim):
+                s2 = sides[ax] ** 2
+                ref = ref + apply_ref(dpre, ax, s2, 'forward', pad, 0) - apply_ref(dpre, ax, s2, 'backward', pad, 0)
+            return ref
+        stencil('derivative', op.derivative(x)(d), mkd)
         return
     raise ValueError(kind)
